@@ -94,7 +94,8 @@
 From Coq Require Import QArith Qabs List.
 From SharkV Require Import C08Model C08Defs C08ProofsBox C16Model C16Proofs C16ProofsMc C16ProofsGain.
 From SharkV Require Import C16State C16StateDefs C16GradProofs C16SmoProofs C16SmoSimplexProofs C16InitProofs
-  C16TablesProofs C16DeactProofs C16UnshrinkProofs C16ShrinkProofs C16SimplexShrinkProofs C16HistProofs C16WitnessProofs C16Linear C16LinearProofs.
+  C16TablesProofs C16DeactProofs C16UnshrinkProofs C16ShrinkProofs C16SimplexShrinkProofs C16HistProofs C16WitnessProofs C16Linear C16LinearProofs
+  C16Select C16SelectProofs C16SelectSimplexProofs C16SolveProofs C16SolveSimplexProofs.
 Import ListNotations.
 Open Scope Q_scope.
 
@@ -555,3 +556,118 @@ Example C16_linear_hyps_sat : BoxOK 1 (fun _ => 0) /\ SimOK 3 1 (fun _ => 0) /\ 
   Wbook 3 LWW 1 2 (fun _ => 0%nat) (fun _ _ => 1) (fun _ _ => 0) (fun _ _ => 0) /\
   BLinv 1 2 1 (fun _ => 1) (fun _ _ => 1) (fun _ => 0, fun _ => 0).
 Proof. exact w_linear_hyps. Qed.
+
+(* ======================================================================================================
+   WORKING-SET SELECTION /\ THE SOLVER LOOP (C16Select.v), as coded.
+   ====================================================================================================== *)
+
+(* QpMcBoxDecomp::selectWorkingSet (as repaired by 54c331a5): the returned value is checkKKT = the largest documented
+   violation over the ACTIVE variables; nothing is selected at violation 0; otherwise the first variable is active and
+   attains the violation, the second is active and is i itself or the admissible candidate (as coded: active, not i, able
+   to move) with the largest unconstrained 2-D gain (C16_max_gain_2d_is_optimum), never below the 1-D gain of i *)
+Theorem C16_box_select : forall (C micro : Q) (P ncl : nat) (Mrow : nat -> list (nat * Q)) (Mdef : nat -> Q)
+  (K0 : nat -> nat -> Q) (s : qmst) (i0 j0 : nat),
+  let r := box_select qops micro P ncl C Mrow Mdef K0 s i0 j0 in
+  let v := fst r in let i := fst (snd r) in let j := snd (snd r) in
+  v == box_kkt qops C s (actvar s) /\ 0 <= v /\ (forall a, (a < actvar s)%nat -> box_viol_le C s a v) /\
+  (v = 0 -> i = i0 /\ j = j0) /\
+  (0 < v ->
+     (i < actvar s)%nat /\ box_viol_at C s i v /\ (j < actvar s)%nat /\
+     let g1 := mgrad s i * mgrad s i / vdiag s i in
+     let gain := cand_gain micro P ncl Mrow Mdef K0 s (vex s i) (vp s i) (ey s (vex s i)) (vdiag s i) (mgrad s i) in
+     let ok := cand_ok C s i in
+     exists bg, g1 <= bg /\
+       ((j = i /\ bg = g1) \/ exists a pf, ok a pf /\ j = evar s a pf /\ bg = gain a pf) /\
+       (forall a pf, (a < actex s)%nat -> (pf < P)%nat -> ok a pf -> gain a pf <= bg)).
+Proof. exact box_select_spec. Qed.
+Print Assumptions C16_box_select.
+
+(* checkKKT < eps is the eps-KKT condition of the box-constrained multi-class dual (cf. C07 for the binary machine) *)
+Theorem C16_box_kkt_is_eps_kkt : forall (C : Q) (s : qmst) (m : nat) (eps : Q), 0 < eps ->
+  (box_kkt qops C s m < eps <->
+   forall a, (a < m)%nat -> (malpha s a < C -> mgrad s a < eps) /\ (0 < malpha s a -> - eps < mgrad s a)).
+Proof. exact box_kkt_eps. Qed.
+Print Assumptions C16_box_kkt_is_eps_kkt.
+
+(* no stalling (box): a positive violation at i means the step on i alone gains strictly, and that point is feasible
+   for every pair (i, j) *)
+Theorem C16_box_select_no_stall : forall (C : Q) (s : qmst) (i : nat) (v : Q),
+  0 <= C -> 0 <= malpha s i -> malpha s i <= C -> 0 <= vdiag s i -> 0 < v -> box_viol_at C s i v ->
+  let ai' := solve_edge qops (malpha s i) (mgrad s i) (vdiag s i) 0 C in
+  0 < gain1 (mgrad s i) (vdiag s i) (ai' - malpha s i) /\
+  forall aj gj Qij Qjj, G2 (malpha s i) aj (mgrad s i) gj (vdiag s i) Qij Qjj (ai', aj) == gain1 (mgrad s i) (vdiag s i) (ai' - malpha s i).
+Proof. exact box_select_no_stall. Qed.
+Print Assumptions C16_box_select_no_stall.
+
+(* QpMcSimplexDecomp::selectWorkingSet: the returned value is checkKKT over the active examples, the working set is
+   active.  (That the chosen pair maximises the gain among the candidates of maxGainBox / maxGainSimplex is only
+   compared, not proved.) *)
+Theorem C16_simplex_select_partial : forall (C micro : Q) (P ncl n : nat) (Mrow : nat -> list (nat * Q)) (Mdef : nat -> Q)
+  (K0 : nat -> nat -> Q) (s : qmst), Inv_tab P n s -> (forall e, (e < actex s)%nat -> evsum s e <= C) ->
+  let r := simplex_select qops micro P ncl C Mrow Mdef K0 s in
+  fst r == skkt qops C s (actex s) /\ 0 <= fst r /\
+  ((0 < actvar s)%nat -> (fst (snd r) < actvar s)%nat /\ (snd (snd r) < actvar s)%nat).
+Proof. exact simplex_select_spec. Qed.
+Print Assumptions C16_simplex_select_partial.
+
+(* checkKKT < eps of the simplex class: eps-KKT of the simplex-constrained dual on the active variables *)
+Theorem C16_simplex_kkt_is_eps_kkt : forall (C : Q) (s : qmst) (m : nat) (eps : Q), skkt qops C s m < eps ->
+  forall e, (e < m)%nat -> forall b, (b < eact s e)%nat ->
+  let v := eavar s e b in
+  (0 < malpha s v -> - eps < mgrad s v) /\
+  (evsum s e < C -> mgrad s v < eps) /\
+  (evsum s e == C -> forall b', (b' < eact s e)%nat -> 0 < malpha s (eavar s e b') -> mgrad s v - mgrad s (eavar s e b') < eps).
+Proof. exact skkt_eps. Qed.
+Print Assumptions C16_simplex_kkt_is_eps_kkt.
+
+(* maxGainBox as repaired by c9be7fe4: gain 0 and the pair (i,i) for a first variable that cannot move *)
+Theorem C16_max_gain_box_stuck : forall (C micro : Q) (P ncl : nat) (Mrow : nat -> list (nat * Q)) (Mdef : nat -> Q)
+  (K0 : nat -> nat -> Q) (s : qmst) (i : nat),
+  let r := max_gain_box qops micro P ncl C Mrow Mdef K0 s i in
+  fst (fst r) = i /\ (snd (fst r) = i \/ (snd (fst r) < actvar s)%nat) /\
+  (sbox_stuck qops C s i = true -> r = ((i, i), 0)).
+Proof. exact max_gain_box_idx. Qed.
+Print Assumptions C16_max_gain_box_stuck.
+
+(* regression witness: before c9be7fe4 the selection could pick a pair that cannot move although the violation is 1 *)
+Theorem C16_old_max_gain_box_stalls_refuted :
+  let sel_old := old_simplex_select qops qmicro 2 1 1 stM (fun _ => 0) (fun _ _ => 1) stall_state in
+  let sel_new := simplex_select qops qmicro 2 1 1 stM (fun _ => 0) (fun _ _ => 1) stall_state in
+  let smo := simplex_smo qops qlowest qtiny 2 1 1 stM (fun _ => 0) (fun _ _ => 1) stall_state in
+  Inv_grad 2 1 1 stM (fun _ => 0) (fun _ _ => 1) stall_state /\
+  fst sel_old == 1 /\ snd sel_old = (0%nat, 0%nat) /\
+  malpha (smo 0%nat 0%nat) 0%nat == 0 /\ malpha (smo 0%nat 0%nat) 1%nat == 1 /\
+  fst sel_new == 1 /\ snd sel_new = (0%nat, 1%nat) /\ 0 < malpha (smo 0%nat 1%nat) 0%nat.
+Proof. exact old_max_gain_box_stalls_refuted. Qed.
+Print Assumptions C16_old_max_gain_box_stalls_refuted.
+
+(* QpSolver::solve on QpMcBoxDecomp (mc_solve_steps: selection, accuracy test with unshrink + checkKKT + shrink +
+   re-selection, updateSMO, shrink counter), every fuel = stop.maxIterations (the run with less fuel is a prefix of the
+   run with more: every visited state is covered): invariant, monotone objective, and on the exit "accuracy reached" all
+   variables are active and checkKKT over all of them is < eps *)
+Theorem C16_solver_loop_box :
+  forall (P ncl n : nat) (C : Q) (Mrow : nat -> list (nat * Q)) (Mdef : nat -> Q) (K0 : nat -> nat -> Q),
+  Mwf P Mrow -> Msym P ncl Mrow Mdef -> K0sym K0 -> Qdiag_nonneg P ncl Mrow Mdef K0 -> 0 < C ->
+  forall (y0 : nat -> nat) (shrinking : bool) (eps : Q), 0 < eps ->
+  forall (fuel it : nat) (c : scnt) (s : qmst), Inv_hist P ncl n C Mrow Mdef K0 y0 false s ->
+  let r := mc_solve_steps qops qlowest qtiny qmicro P ncl n C Mrow Mdef K0 false shrinking eps fuel it c s in
+  Inv_hist P ncl n C Mrow Mdef K0 y0 false (sr_state r) /\
+  mobj P ncl n Mrow Mdef K0 s <= mobj P ncl n Mrow Mdef K0 (sr_state r) /\
+  (sr_exit r = XAccuracy -> actvar (sr_state r) = nv P n /\ box_kkt qops C (sr_state r) (nv P n) < eps).
+Proof. exact mc_solve_box. Qed.
+Print Assumptions C16_solver_loop_box.
+
+(* QpSolver::solve on QpMcSimplexDecomp: invariant at every visited state, every working set inside the active set
+   (shrink() after a failed accuracy test never removes everything: a variable with alpha > 0, or with positive gradient
+   in an example below its bound, is never shrunk, and without such a variable checkKKT is 0), and on the exit "accuracy
+   reached" all variables are active with checkKKT < eps.  No objective clause: the triangle snapping can lose objective. *)
+Theorem C16_solver_loop_simplex :
+  forall (P ncl n : nat) (C : Q) (Mrow : nat -> list (nat * Q)) (Mdef : nat -> Q) (K0 : nat -> nat -> Q),
+  Mwf P Mrow -> Msym P ncl Mrow Mdef -> K0sym K0 -> Qdiag_nonneg P ncl Mrow Mdef K0 -> 0 < C ->
+  forall (y0 : nat -> nat) (shrinking : bool) (eps : Q), 0 < eps ->
+  forall (fuel it : nat) (c : scnt) (s : qmst), Inv_hist P ncl n C Mrow Mdef K0 y0 true s ->
+  let r := mc_solve_steps qops qlowest qtiny qmicro P ncl n C Mrow Mdef K0 true shrinking eps fuel it c s in
+  Inv_hist P ncl n C Mrow Mdef K0 y0 true (sr_state r) /\
+  (sr_exit r = XAccuracy -> actvar (sr_state r) = nv P n /\ skkt qops C (sr_state r) (actex (sr_state r)) < eps).
+Proof. exact mc_solve_simplex. Qed.
+Print Assumptions C16_solver_loop_simplex.
